@@ -339,7 +339,7 @@ fn run_batch_case(ctx: &Ctx, rep: &mut Report, model: &mut Model, k: usize) {
     sched.shutdown();
     for h in handles { let _ = h.join(); }
     let res = results.lock().unwrap().clone();
-    if !set_up { rep.disagree(case.clone(), format!("the scenario could not be set up: {note}"), "commit-batch-setup".into()); return; }
+    if !set_up { rep.count("batch_scenario_not_set_up"); rep.notes.push(format!("batch scenario could not be set up: {note}")); return; }
     if !finished || res.iter().any(|r| *r != Some(true)) {
         rep.oracle_fail(case.clone(), format!("not every COMMIT returned Ok: {res:?} {note}"), "commit:batch:commit-failed".into());
         return;
